@@ -135,6 +135,46 @@ CLAIMED['C06'] = dict(
         "the same statements in both modes, and end-of-stream / successful parser results are returned identically in both modes.",
    ref="DESIGN.md section 5, C06", note=_PARSE_NOTE)
 
+_L2T_NOTE = NOTE + ("; children of a node enter through the interface contracts of node_to_text / nodelist_to_text (each verified by "
+                    "its own unit), the structural induction over the finite node tree is stated, not mechanised; argument lists of at "
+                    "most 3 entries in the renderer units; database rows are read by importing the tree under check (A-TABLE); "
+                    "do_fill_text has no unit; see evidence.assumptions")
+
+CLAIMED['C07'] = dict(
+   text="Proof that every function of the rendering layer is total and returns a string: each renderer (chars, comment, group, "
+        "macro, environment, specials, math), the dispatch node_to_text, the fold nodelist_to_text (loop contract over a list of "
+        "any length), the None-tolerant helpers (_is_bare_macro_node incl. macro nodes without an arguments object, "
+        "_groupnodecontents_to_text, node_arg_to_text under its index precondition), apply_simplify_repl for every kind of "
+        "replacement (callable with any subset of the optional parameters, plain string, %-substitution: the three exception "
+        "classes of a failed substitution are caught), the strict_latex_spaces presets, and EVERY replacement callable of the "
+        "default text database, located in the real source by file and line on each run and verified for each argument signature "
+        "the walker database declares for the rows that use it plus the no-arguments shape of a macro read as a single token "
+        "(index obligations on nodeargs / argnlist, node_arg_to_text's precondition at each call site). Table obligations tie the "
+        "two hand-synchronised databases together. latex_to_text = render(parse) with the tolerant-parse contract of C06.",
+   ref="DESIGN.md section 5, C07", note=_L2T_NOTE)
+
+CLAIMED['C12'] = dict(
+   text="Proof of the filter mechanisms on the real renderers: comment_node_to_text emits the comment text iff keep_comments "
+        "(four-way table with the after-comment policy); math_node_to_text for inline, display and environment math under the four "
+        "math modes (remove -> '', verbatim -> the source slice unchanged, with-delimiters -> delimiters kept, text -> stripped / "
+        "indented content) with the in-equations policy pushed for the contents and restored afterwards (frame); discarded macros "
+        "and environments contribute ''; node_to_text sends every math node to math_node_to_text; fmt_equation_environment is the "
+        "math switch and the table obligation shows every math environment of the walker database is rendered by it. "
+        "LatexExpressionParser.parse is checked for keeping the comments it skips: that obligation is refuted on the tree as it "
+        "stands (known finding, comment between a macro and its argument).",
+   ref="DESIGN.md section 5, C12", note=_L2T_NOTE + "; LatexExpressionParser.parse: bounded (at most two nodes skipped earlier)")
+
+CLAIMED['C03'] = dict(
+   text="Proof that each renderer equals its documented rule function: chars copied / whitespace-only chars dropped unless strict "
+        "between-latex-constructs; the comment post-space table; groups transparent or kept with their delimiters from minlen on; "
+        "unknown macro -> '', unknown environment -> body, unknown specials -> the characters; discard; replacement strings used as "
+        "they are, callables given exactly the parameters they declare; math inline / display block; the fold law of "
+        "nodelist_to_text as a one-step relation proved for an arbitrary iteration of the real loop (s' = s + [post-space of a bare "
+        "macro before chars unless strict] + text of the node at the column after the last newline), from which the "
+        "compositionality statement follows; the documented preset table of strict_latex_spaces incl. the aliases; placeholders of "
+        "every replacement string of the text database fit the arguments the walker database declares.",
+   ref="DESIGN.md section 5, C03", note=_L2T_NOTE + "; symbol and accent tables are data and are not checked against Unicode")
+
 NA = {
 }
 DEFAULT_NA = "check not built yet (work in progress; see DESIGN.md section 5 for the planned contracts)"
